@@ -93,6 +93,12 @@ static Result run_case (const Case &c)
 	SF_INFO ri ; memset (&ri, 0, sizeof (ri)) ;
 	if (maj == SF_FORMAT_RAW) { ri.format = format ; ri.channels = ch ; ri.samplerate = rate ; }
 	SNDFILE *g = path ? sf_open (fname.c_str (), SFM_READ, &ri) : open_mem (mem, SFM_READ, &ri) ;
+	// SD2 keeps its parameters in a resource fork and the data fork is headerless: if the audio bytes themselves look like
+	// another container (e.g. start with 01 04 = MPC2K) the library's format detection takes that (listed finding)
+	if ((format & SF_FORMAT_TYPEMASK) == SF_FORMAT_SD2 && path)
+	{	std::vector<uint8_t> fork ; read_file (fname, fork) ; MemFile probe ; probe.data = fork ; SF_INFO pi ; memset (&pi, 0, sizeof (pi)) ;
+		SNDFILE *pf = open_mem (probe, SFM_READ, &pi) ; if (pf) { sf_close (pf) ; r.sig.set ("sd2_datafork_looks_like", major_name (pi.format)) ; }
+	}
 	if (!g) { if (path) unlink (fname.c_str ()) ; return fail ("reopen_failed", sf_strerror (nullptr)) ; }
 	Result res = r ;
 	auto bad = [&] (const char *kind, const std::string &d) { if (res.ok) { res.ok = false ; res.kind = kind ; res.detail = d ; } } ;
